@@ -3,6 +3,7 @@ import propcheck
 import pike
 from sym import *
 import c09
+import c06
 
 
 def _rx(ctx, frag):
@@ -28,12 +29,19 @@ def exclude(ctx, ob):
 def main(tier):
     ck = propcheck.Check('C03', tier)
     ck.replay_repeat = 400
-    N = 18 if tier == 'quick' else 24
+    N = 14 if tier == 'quick' else 17
     ck.assumptions += ['the Go runtime randomises every `range` over a map: each range statement gets its own symbolic permutation of the entries (all orders decided at once)',
                        'parseLine: printable ASCII line, one job per length; expandDefinitions: definition shapes enumerated (chains of depth 3 under several namings, diamond, independent + undefined, braces), all iteration orders of its three loops symbolic',
                        'OS-level nondeterminism (directory order) is C08; time/pid/random are not called on these paths (no such call appears in the encoded call trees)']
     jobs = [('regex/parser.VerifC03ParseLine', dict(fixlen={'line': L}, unwind=N + 12, exclude=exclude, timeout_ms=120000, terminal_obligations=())) for L in range(0, N + 1)]
-    rs, viol = ck.run('parseLine-two-orders', jobs, bounds={'line_len': '0..%d' % N, 'patterns': 7})
+    rs, viol = ck.run('parseLine-two-orders', jobs, job_timeout=420 if tier == 'quick' else 3000, bounds={'line_len': '0..%d' % N, 'patterns': 7})
+    ck.triage(viol)
+    # include-except under every iteration order of the line map; suffix-replacement pair lists under two independent orders
+    jobs = [('regex/parser.VerifC06ExceptOrder', dict(params={'shape': sh}, unwind=40, timeout_ms=120000, terminal_obligations=())) for sh in range(5)]
+    rs, viol = ck.run('include-except-all-orders', jobs, bounds={'list_shapes': 5})
+    ck.triage(viol)
+    jobs = c06.pair_jobs(tier)
+    rs, viol = ck.run('suffix-pairs-two-orders', jobs, bounds=c06.PAIR_BOUNDS[tier])
     ck.triage(viol)
     shapes = (2, 4, 5, 6, 7) if tier == 'quick' else (0, 1, 2, 3, 4, 5, 6, 7)
     jobs = [('regex/parser.VerifC07Expand', dict(params={'shape': sh}, unwind=30, hooks={'choice_strings': True, 'max_replace': 6}, timeout_ms=240000, terminal_obligations=())) for sh in shapes]
